@@ -232,9 +232,12 @@ class DataConnection(Connection, abc.ABC):
         :raise ConnectionFailedError: raised when connection failed or timed out
         """
         adapter.info("connecting", extra=self.__dict__)
-        await self.set_state(ConnectionState.CONNECTING)
 
         try:
+            # Reporting the state awaits the listeners: a cancellation can
+            # arrive there as well as during the actual connect
+            await self.set_state(ConnectionState.CONNECTING)
+
             async with atimeout(timeout):
                 self._reader, self._writer = await asyncio.open_connection(
                     self.hostname, self.port)
